@@ -922,7 +922,38 @@ def str_kinds_batch(rng):
                        f"pattern={t!r} node=#{toks.tok(node)}={zoo.show(node)} [config: {cfg}]", sig="pmatch|str-kinds")
 
 
+def var_identity_batch(rng):
+    """`$name` "equals the value captured earlier (content equality for nodes, == otherwise)": decided by the comparison,
+    not by object identity -- the very same NaN object is not == to itself; the very same node object is content-equal to
+    itself; two distinct equal values are equal.  Oracle only (floats are opaque tokens for the model)"""
+    nan = float("nan")
+    cases = [
+        (zoo.PropZoo(fl=nan, num=nan), '(PropZoo @fl -> v @num=$v)', False, "the same NaN object in two fields (nan != nan)"),
+        (zoo.PropZoo(fl=2.5, num=2.5), '(PropZoo @fl -> v @num=$v)', True, "equal floats"),
+        (zoo.PropZoo(fl=2.0, num=2), '(PropZoo @fl -> v @num=$v)', True, "2.0 == 2"),
+        (zoo.PropZoo(fl=1.5, num=nan), '(PropZoo @fl -> v @num=$v)', False, "1.5 vs nan"),
+    ]
+    shared = zoo.Leaf(v=3)
+    cases.append((zoo.Bin(shared, shared), '(Bin @left -> v @right=$v)', True, "the same node object in two fields"))
+    cases.append((zoo.Bin(zoo.Leaf(v=3), zoo.Leaf(v=3, tag="t")), '(Bin @left -> v @right=$v)', True, "content-equal nodes"))
+    cases.append((zoo.Bin(zoo.Leaf(v=3), zoo.Leaf(v=4)), '(Bin @left -> v @right=$v)', False, "different nodes"))
+    for node, text, want, what in cases:
+        pm._MATCHER_CACHE.clear()
+        fail = None
+        try:
+            m, _ = NodeMatcher.from_pattern(text)
+            ok, caps = m.match(node)
+            if bool(ok) != want:
+                fail = f"match is {bool(ok)}, expected {want}: {what}"
+            elif ok and caps.get("v") is not getattr(node, "fl" if isinstance(node, zoo.PropZoo) else "left"):
+                fail = "the capture is not the very object stored in the field"
+        except Exception as e:  # noqa
+            fail = f"raised {type(e).__name__}"
+        yield Case("pmatch_var_identity", None, None, True, f"pattern={text!r} on {what}", oracle_fail=fail, sig="pmatch|var-identity")
+
+
 def cases(rng: random.Random, tier: str):
+    yield from var_identity_batch(rng)
     yield from fixed_cases()
     n = 230 if tier == "quick" else 5000
     for i in range(n):
